@@ -423,6 +423,7 @@ fn mode_lookup(c: &Case, out: &mut String) {
 fn mode_history(c: &Case, out: &mut String, tmp: &std::path::Path) {
     // the real parser, keyed by path for add_file
     let mut p: Parser<std::path::PathBuf> = Parser::new();
+    let _ = std::fs::create_dir_all(tmp.join("sub")); // ids like `sub/../i0`: paths that are not in canonical form
     let mut abs: Vec<(String, String)> = Vec::new(); // abstract id -> latest content, insertion-ordered
     let mut ok = true;
     let mut detail = String::new();
@@ -503,7 +504,7 @@ fn mode_history(c: &Case, out: &mut String, tmp: &std::path::Path) {
             let r = p.validate();
             let mut keys: Vec<String> = r
                 .keys()
-                .map(|k| k.file_name().unwrap().to_string_lossy().to_string())
+                .map(|k| k.strip_prefix(tmp).unwrap_or(k).to_string_lossy().to_string())
                 .collect();
             keys.sort();
             steps.push('(');
@@ -596,6 +597,22 @@ fn mode_parse(c: &Case, out: &mut String) {
     }
 }
 
+// parse mode plus, per file, what validate() returns for it (Q lines, same layout as P lines; read by Python oracles only)
+fn mode_parsev(c: &Case, out: &mut String) {
+    mode_parse(c, out);
+    for (id, text) in &c.files {
+        let mut p = Parser::new();
+        p.add_content(id.clone(), text);
+        let v = p.validate();
+        let fr = &v[id];
+        write!(out, "Q {}:{} (", c.name, id).unwrap();
+        sx::s(out, text);
+        out.push_str("()");
+        sx::file_result(out, &fr.id, &fr.ast, &fr.diagnostics);
+        out.push_str("())\n");
+    }
+}
+
 fn main() {
     let args: Vec<String> = std::env::args().collect();
     if args.len() < 3 {
@@ -620,6 +637,7 @@ fn main() {
             "lookup" => mode_lookup(c, &mut out),
             "history" => mode_history(c, &mut out, &tmp),
             "parse" => mode_parse(c, &mut out),
+            "parsev" => mode_parsev(c, &mut out),
             _ => panic!("unknown mode"),
         }));
         match r {
